@@ -402,6 +402,14 @@ class Check:
                         out.append((b["id"], s["lab"], s["to"]))
         return out
 
+    def edge_marks(self, fn, bid, lab):
+        """initial environment for a flow started on the edge (bid, lab): if that edge is a short-circuit edge inside a larger condition, what it decided
+        is carried into the statement-level branch that closes the expression (flow.py "@sc:" marks); empty otherwise"""
+        term = fn.blocks[bid].get("term") or {}
+        if term.get("k") in ("BinaryOperator", "ConditionalOperator") and term.get("c") is not None:
+            return {"@sc:" + E.key(t): v for t, v in E.implied(term["c"], lab == "T")}
+        return {}
+
     def require_response(self, rule, fn, matcher, val, response, name, min_edges=1, until=None, exits=("ret", "fall"), why="", term_kinds=None, **flowkw):
         """RESPONSE: after every edge on which atom `matcher`==val, each path passes an event satisfying `response`
         before the function returns, before `until` sites and before the atom is tested again"""
@@ -410,10 +418,8 @@ class Check:
             raise AnalysisBroken("%s: RESPONSE trigger %s=%s matched %d edge(s) in %s, expected >= %d" % (self.pid, matcher.desc, val, len(edges), fn.name, min_edges))
         for (bid, lab, to) in edges:
             kw = dict(flowkw)
-            term = fn.blocks[bid].get("term") or {}
-            if term.get("k") in ("BinaryOperator", "ConditionalOperator") and "init_env" not in kw:
-                # the trigger is a short-circuit edge inside a larger condition: carry what it decided into the closing branch (flow.py "@sc:" marks)
-                kw["init_env"] = {"@sc:" + E.key(t): v for t, v in E.implied(term["c"], lab == "T")}
+            if "init_env" not in kw:
+                kw["init_env"] = self.edge_marks(fn, bid, lab)
             fl = self.flow(fn, start=to, markers={"R": response}, **kw)
             bad = []
             for s in fl.sites:
